@@ -11,7 +11,7 @@ def run(tier, replay=None):
               "explicit segment lists per AdaptationSet (SegmentTimeline entries, or SegmentTemplate@duration expanded by the DASH rules over "
               "the time-shift window), every listed segment fetched through the URL derived from its MPD; scenario = (asset / MPD incl. "
               "thumbnail and subtitle AdaptationSets and variable-duration layouts, MPD type Number/segtimeline/segtimelinenr, P from 1..60, "
-              "120..3600 accepted for the asset + P that must be refused, continuous_1 on/off, tsbd, snr); instants: near "
+              "120..3600 accepted for the asset + P that must be refused, continuous_1 on/off, tsbd, snr, availabilityStartTime 0 / 1000 / 3600 / 2023); instants: near "
               "availabilityStartTime, period boundary / window edge / loop wrap and their coincidences (multiples of lcm(PD, loop)) -1/0/+1 ms, "
               "early and in 2023-2025, first segment after a wrap, seeded; distinct = distinct (asset, MPD, type, P, continuity, instant class)")
     c.assumptions = [
@@ -22,7 +22,9 @@ def run(tier, replay=None):
         "period-continuity: when requested every period with a predecessor in the MPD must signal it on every AdaptationSet (the first listed period is free); "
         "when not requested no AdaptationSet may signal it",
         "C06.pt (Number mode publishTime = start of the last period) follows the property's anchor 'publishTime in multi-period Number mode' and DESIGN.md",
-        "a segment URL is compared only where the single-period URL is answered 200; availabilityStartTime 0 (start_ is outside the property's quantifier)",
+        "a segment URL is compared only where the single-period URL is answered 200",
+        "availabilityStartTime != 0 (start_): the text does not say whether the period grid is anchored at availabilityStartTime or at the epoch; C06.tile accepts "
+        "both; 'tile wall-clock time' is read as: the generated periods do not all lie in the future of the request instant (C06.cover: first Period@start <= now - AST)",
     ]
     c.trusted = ["encoding/xml MPD reader and DASH list expansion of the recorder", "asset generator ground truth / independent VoD parse (header)", "TLC"]
     jobs = [("Periods_MC", f"Periods_{tier}.cfg", dict(workers=4, required_actions=("Tick",))),
@@ -46,7 +48,7 @@ def run(tier, replay=None):
         hdr_at[i] = hdr
     for f in vlib.bad_to_failures(r, events):
         h = hdr_at.get(f["line"]) or {}
-        for k in ("asset", "mpd", "mode", "snr", "P", "cont", "tsbd", "cfg", "uniform", "probe"):
+        for k in ("asset", "mpd", "mode", "snr", "P", "cont", "tsbd", "ast", "cfg", "uniform", "probe"):
             f.setdefault(k, h.get(k))
         try:
             d = json.loads(f.get("detail") or "{}")
